@@ -205,11 +205,14 @@ impl Snapshot {
 		#[cfg(surrealkv_verif)]
 		crate::verif::acquire_point("memtable:read-lock", &|| core.active_memtable.try_read().is_err());
 		let active = guardian::ArcRwLockReadGuardian::take(Arc::clone(&core.active_memtable))?;
-		let immutable =
-			guardian::ArcRwLockReadGuardian::take(Arc::clone(&core.immutable_memtables))?;
+		// Lock order (see CoreInner): level_manifest before immutable_memtables. A flush
+		// holds the manifest for writing while it takes the immutable queue for writing;
+		// taking the two in the opposite order here can deadlock against it.
+		let manifest = guardian::ArcRwLockReadGuardian::take(Arc::clone(&core.level_manifest))?;
 		#[cfg(surrealkv_verif)]
 		crate::verif::yield_point("iter-state:between-locks");
-		let manifest = guardian::ArcRwLockReadGuardian::take(Arc::clone(&core.level_manifest))?;
+		let immutable =
+			guardian::ArcRwLockReadGuardian::take(Arc::clone(&core.immutable_memtables))?;
 
 		Ok(IterState {
 			active: active.clone(),
